@@ -1,6 +1,6 @@
 #!/bin/bash
 # run_seeded.sh <seeded-dir-name> <check ids...> : apply the seeded change to a scratch worktree of /repo
-# (VERIF_REPO points the harness at it; /repo itself is not touched), run the quick checks, remove the worktree.
+# (VERIF_REPO points the harness at it; /repo itself is not touched), run the quick checks (TIER=thorough for the thorough tier), remove the worktree.
 set -u
 D=/verif/seeded/$1; T=$1; shift
 WT=/tmp/seedrun_$T
@@ -9,7 +9,7 @@ git -C /repo worktree add -q --detach $WT HEAD || exit 2
 if ! git -C $WT apply $D/patch.diff; then echo "$T: patch does not apply"; git -C /repo worktree remove --force $WT; exit 2; fi
 cd /verif
 for c in "$@"; do
-  out=$(VERIF_REPO=$WT ./check $c quick 2>&1); rc=$?
+  out=$(VERIF_REPO=$WT ./check $c ${TIER:-quick} 2>&1); rc=$?
   echo "$T check=$c rc=$rc :: $(echo "$out" | grep -c '^VIOLATION') violation lines :: $(echo "$out" | tail -1)"
   echo "$out" | grep '^VIOLATION' | head -2
 done
